@@ -2,12 +2,13 @@
    evidence.Pool (memdb evidence store, real state store and block store holding a generated
    chain), with what the implementation showed after every operation.  [check] (a) evaluates the
    clauses of the property on the implementation's own answers (V_violation) and (b) compares
-   every observable with the model (V_mismatch).  Depends on Model.v only.
+   every observable with the model (V_mismatch).  Depends on Model.v and Spec.v (the specification
+   of light client attack evidence; no proofs) only.
 
    Evidence is written once per case in a table; operations and observations refer to table
    indices (an evidence the harness cannot find in the table is printed as an out-of-range index). *)
 From Coq Require Import List ZArith NArith Bool.
-From TM Require Import Common.Hex Generated.Consts C11.Model.
+From TM Require Import Common.Hex Generated.Consts C11.Model C11.Spec.
 Import ListNotations.
 Open Scope Z_scope.
 
@@ -17,11 +18,15 @@ Definition valt := (N * Z)%type.
 Definition votet := (Z * Z * Z * N * N * bool)%type.       (* type, height, round, bid, addr, basic *)
 Inductive evt :=
 | TDup (hash : N) (size : Z) (a b : votet) (total power time : Z) (sa sb : bool)
+(* sigs: BlockIDFlag, address, "genuine" (address of the conflicting validator of that index and a
+   signature verifying under its key); abci: what ABCI() returns (type, validator address,
+   validator power, height, time, total voting power); specl: the harness's own Go transcription
+   of the specification says ByzantineValidators is the specified list *)
 | TLca (hash : N) (size : Z) (common height ctime : Z) (chash : N) (hs : list N) (round : Z)
-       (sigs : list (Z * N)) (cvals : list valt) (byz : option (list valt)) (total time : Z)
-       (trusting light basic : bool).
-(* height, time, hash, five hashes, has commit, commit round, absent flags, validators *)
-Definition hdrt := (Z * Z * N * list N * bool * Z * list bool * list valt)%type.
+       (sigs : list (Z * N * bool)) (cvals : list valt) (byz : option (list valt)) (total time : Z)
+       (trusting light basic : bool) (abci : list (Z * N * Z * Z * Z * Z)) (specl : bool).
+(* height, time, hash, five hashes, has commit, commit round, BlockIDFlags, validators *)
+Definition hdrt := (Z * Z * N * list N * bool * Z * list Z * list valt)%type.
 Definition stt := (Z * Z * Z * Z * list valt)%type.   (* height, time, max blocks, max dur, last vals *)
 
 Inductive xop :=
@@ -50,23 +55,28 @@ Definition mk_ev (t : evt) : evidence :=
     {| e_hash := hash; e_size := size;
        e_body := EvDup {| d_a := mk_vote a; d_b := mk_vote b; d_total := total; d_power := power;
                           d_time := time; d_sig_a := sa; d_sig_b := sb |} |}
-  | TLca hash size common height ctime chash hs round sigs cvals byz total time tr li ba =>
+  | TLca hash size common height ctime chash hs round sigs cvals byz total time tr li ba _ _ =>
     {| e_hash := hash; e_size := size;
        e_body := EvLca {| l_common := common; l_height := height; l_ctime := ctime;
                           l_chash := chash; l_vh := nthN hs 0; l_nvh := nthN hs 1;
                           l_ch := nthN hs 2; l_ah := nthN hs 3; l_lrh := nthN hs 4;
                           l_round := round;
-                          l_sigs := map (fun s => {| cs_flag := fst s; cs_addr := snd s |}) sigs;
+                          l_sigs := map (fun s => let '(f, a, ok) := s in
+                                                 {| cs_flag := f; cs_addr := a; cs_ok := ok |}) sigs;
                           l_cvals := map mk_val cvals;
                           l_byz := option_map (map mk_val) byz;
                           l_total := total; l_time := time;
                           l_trusting_ok := tr; l_light_ok := li; l_basic_ok := ba |} |}
   end.
+Definition abci_obs (t : evt) : list (Z * N * Z * Z * Z * Z) :=
+  match t with TLca _ _ _ _ _ _ _ _ _ _ _ _ _ _ _ _ abci _ => abci | _ => [] end.
+Definition specl_obs (t : evt) : option bool :=
+  match t with TLca _ _ _ _ _ _ _ _ _ _ _ _ _ _ _ _ _ b => Some b | _ => None end.
 Definition mk_hdr (t : hdrt) : Z * header * valset :=
   let '(h, time, hash, hs, hc, round, ab, vals) := t in
   (h, {| h_time := time; h_hash := hash; h_vh := nthN hs 0; h_nvh := nthN hs 1; h_ch := nthN hs 2;
          h_ah := nthN hs 3; h_lrh := nthN hs 4; h_has_commit := hc; h_round := round;
-         h_absent := ab |}, map mk_val vals).
+         h_flags := ab |}, map mk_val vals).
 Definition mk_st (t : stt) : pstate :=
   let '(h, time, mb, md, lv) := t in
   {| s_height := h; s_time := time; s_max_blocks := mb; s_max_dur := md;
@@ -148,6 +158,33 @@ Definition valid_spec (en : env) (st : pstate) (e : evidence) : bool :=
   | EvLca _ => verify en st e && negb (ev_expired st e)
   end.
 
+(* the SPECIFICATION's verdict on an evidence (Spec.v for light client attacks; the Go-level
+   non-nil empty list, which the code always refuses, is left out of the completeness clause) *)
+Definition spec_valid (en : env) (st : pstate) (e : evidence) : bool :=
+  match e_body e with
+  | EvDup d => dup_valid_spec en st e d
+  | EvLca l => lca_valid en st l && negb (empty_not_nil l)
+  end.
+(* the listed byzantine validators and the total power are the specified ones *)
+Definition lca_listed_ok (en : env) (e : evidence) : bool :=
+  match e_body e with
+  | EvDup _ => true
+  | EvLca l => byz_ok_on_chain en l (claimed_of l)
+               && match en_vals en (l_common l) with
+                  | Some vals => l_total l =? vs_total vals
+                  | None => false
+                  end
+  end.
+Definition lca_abci_ok (en : env) (e : evidence) (ab : list (Z * N * Z * Z * Z * Z)) : bool :=
+  match e_body e with
+  | EvDup _ => true
+  | EvLca l => abci_ok en l ab
+  end.
+Definition abci_eqb (a b : Z * N * Z * Z * Z * Z) : bool :=
+  let '(t1, a1, p1, h1, m1, w1) := a in
+  let '(t2, a2, p2, h2, m2, w2) := b in
+  (t1 =? t2) && (a1 =? a2)%N && (p1 =? p2) && (h1 =? h2) && (m1 =? m2) && (w1 =? w2).
+
 (* ------------------------------------------------------------------ the run *)
 
 (* monitor state: the state last handed to Update, the previous pending observation, everything
@@ -166,8 +203,10 @@ Definition obs_clist (o : obs) := let '(Obs _ _ c) := o in c.
 Definition sum_sizes (tbl : list evidence) (l : list nat) : Z :=
   fold_right (fun i a => e_size (evof tbl i) + a) 0 l.
 
-Definition step_check (en : env) (tbl : list evidence) (p : pool) (m : mon) (x : xop) (o : obs)
+Definition step_check (en : env) (tbl : list evidence) (abs : list (list (Z * N * Z * Z * Z * Z)))
+           (p : pool) (m : mon) (x : xop) (o : obs)
   : pool * mon * list verdict :=
+  let abof (i : nat) := nth i abs [] in
   let pend := obs_pend o in
   let prevk := keys_of tbl (m_pend m) in
   let newk := keys_of tbl pend in
@@ -207,6 +246,12 @@ Definition step_check (en : env) (tbl : list evidence) (p : pool) (m : mon) (x :
   let st := m_st m in
   let admitted_ok (i : nat) :=
     let e := evof tbl i in valid_spec en st e && negb (kmem (e_key e) (m_committed m)) in
+  (* light client attack evidence: what entered the pool / was accepted in a block lists exactly
+     the specified byzantine validators, and ABCI() reports exactly those *)
+  let listed_ok (l : list nat) := forallb (fun j => lca_listed_ok en (evof tbl j)) l in
+  let reported_ok (l : list nat) :=
+    forallb (fun j => lca_abci_ok en (evof tbl j) (abof j)) l in
+  let uncommitted (i : nat) := negb (kmem (e_key (evof tbl i)) (m_committed m)) in
   let monitors :=
     [ (* size = number of pending items *)
       viol (obs_size o =? Z.of_nat (length pend)) 8;
@@ -218,11 +263,22 @@ Definition step_check (en : env) (tbl : list evidence) (p : pool) (m : mon) (x :
                        | _ => false
                        end) gone) 9 ] ++
     match x with
-    | XAdd i _ =>
-      [ viol (forallb (fun j => Nat.eqb j i || kmem (e_key (evof tbl j)) [e_key (evof tbl i)]) fresh
+    | XAdd i r =>
+      [ viol (listed_ok fresh) 11;
+        viol (reported_ok fresh) 12;
+        (* valid evidence that was not committed is not refused and is pending afterwards *)
+        viol (negb (spec_valid en st (evof tbl i) && uncommitted i)
+              || ((r =? 0) && kmem (e_key (evof tbl i)) newk)) 13;
+        viol (forallb (fun j => Nat.eqb j i || kmem (e_key (evof tbl j)) [e_key (evof tbl i)]) fresh
               && forallb admitted_ok fresh) 1 ]
     | XCheck l r =>
-      [ viol (forallb (fun j => kmem (e_key (evof tbl j)) (keys_of tbl l)) fresh
+      [ viol (listed_ok fresh && (negb (r =? 0) || listed_ok l)) 11;
+        viol (reported_ok fresh && (negb (r =? 0) || reported_ok l)) 12;
+        (* a list of distinct, valid, uncommitted evidence is not refused *)
+        viol (negb (forallb (fun i => spec_valid en st (evof tbl i) && uncommitted i) l
+                    && nodupN (map (fun i => e_hash (evof tbl i)) l))
+              || (r =? 0)) 13;
+        viol (forallb (fun j => kmem (e_key (evof tbl j)) (keys_of tbl l)) fresh
               && forallb admitted_ok fresh) 1;
         viol (negb (r =? 0) || nodupN (map (fun i => e_hash (evof tbl i)) l)) 3;
         viol (negb (r =? 0)
@@ -263,14 +319,28 @@ Definition step_check (en : env) (tbl : list evidence) (p : pool) (m : mon) (x :
   (p', {| m_st := st'; m_pend := pend; m_committed := committed'; m_reports := reports' |},
    monitors ++ compare).
 
-Fixpoint run_steps (en : env) (tbl : list evidence) (p : pool) (m : mon) (steps : list (xop * obs))
-  : list verdict :=
+Fixpoint run_steps (en : env) (tbl : list evidence) (abs : list (list (Z * N * Z * Z * Z * Z)))
+         (p : pool) (m : mon) (steps : list (xop * obs)) : list verdict :=
   match steps with
   | [] => []
   | (x, o) :: r =>
-    let '(p', m', vs) := step_check en tbl p m x o in
-    vs ++ run_steps en tbl p' m' r
+    let '(p', m', vs) := step_check en tbl abs p m x o in
+    vs ++ run_steps en tbl abs p' m' r
   end.
+
+(* per table entry: the model's ABCI() against the implementation's; the harness's Go
+   transcription of the specification against Spec.v *)
+Definition table_checks (en : env) (tblt : list evt) : list verdict :=
+  flat_map (fun t =>
+    match e_body (mk_ev t) with
+    | EvLca l =>
+      [ mism (list_eqb abci_eqb (abci_of l) (abci_obs t)) 31;
+        mism (match specl_obs t with
+              | Some b => Bool.eqb b (lca_listed_ok en (mk_ev t))
+              | None => true
+              end) 32 ]
+    | EvDup _ => []
+    end) tblt.
 
 Definition check (c : case) : verdict :=
   match c with
@@ -280,6 +350,7 @@ Definition check (c : case) : verdict :=
     let st := mk_st st0 in
     first_of
       (mism (list_eqb Bool.eqb (map validate_basic tbl) vbs) 30 ::
-       run_steps en tbl (new_pool st)
+       table_checks en tblt ++
+       run_steps en tbl (map abci_obs tblt) (new_pool st)
                  {| m_st := st; m_pend := []; m_committed := []; m_reports := [] |} steps)
   end.
